@@ -776,7 +776,20 @@ func mSprintln(fr *frame, args []value) (value, bool) {
 	return normStr(sprintArgs(fr, args[0].([]value), true)), true
 }
 
+// fmt.Println / fmt.Printf write to the modelled standard output when a
+// command is being run under the os model; otherwise they are discarded.
 func mDiscardPrint(fr *frame, args []value) (value, bool) {
+	if cur.os != nil {
+		mf := osFileOf(cur.os.stdout)
+		var out []value
+		if fr.fn.Name() == "Printf" {
+			out = formatValues(fr, concStr(args[0]), args[1].([]value))
+		} else {
+			out = sprintArgs(fr, args[0].([]value), true)
+		}
+		mf.data = append(mf.data, out...)
+		return tuple{len(out), iface{}}, true
+	}
 	return tuple{0, iface{}}, true
 }
 
